@@ -221,3 +221,28 @@ pub fn smallmap_script(script: &str) -> String {
     }
     out.join(";")
 }
+
+// ---- `build_derivation_tree` on a synthetic store ----
+
+/// Build a store whose incompatibility `i + 1` is, for `causes[i] == None`, the external
+/// `NoVersions("p0", {i})`, and for `Some((a, b))` the prior cause on `"p0"` of the incompatibilities
+/// `a + 1` and `b + 1` (`a, b < i`; every incompatibility of this store has a term on `"p0"`), and return
+/// the derivation tree `State::build_derivation_tree` builds for incompatibility `top + 1`.
+pub fn derivation_tree_of_dag(
+    causes: &[Option<(usize, usize)>],
+    top: usize,
+) -> crate::DerivationTree<String, crate::Range<u32>, String> {
+    use crate::internal::{Incompatibility, State};
+    type DP = crate::OfflineDependencyProvider<String, crate::Range<u32>>;
+    let mut state: State<DP> = State::init("root".to_string(), 1u32);
+    let p0 = "p0".to_string();
+    let mut ids = Vec::new();
+    for (i, c) in causes.iter().enumerate() {
+        let inc = match c {
+            None => Incompatibility::no_versions(p0.clone(), Term::Positive(crate::Range::singleton(i as u32))),
+            Some((a, b)) => Incompatibility::prior_cause(ids[*a], ids[*b], &p0, &state.incompatibility_store),
+        };
+        ids.push(state.incompatibility_store.alloc(inc));
+    }
+    state.verif_build_derivation_tree(ids[top])
+}
